@@ -3,13 +3,15 @@ the property statement) on normal AND exceptional exits, and a rejected call lea
 These are lemmas over the layer-1 contracts (the bodies are tied to the contracts by the `refines` obligations)."""
 import z3
 
-from contracts import layer1
+from contracts import layer1, layer2
 from pyvc import engine, spec, verify
 from pyvc.engine import NONE, NameV, State, TypeV
 from pyvc.exec import Exec
 from pyvc.tasks_layer1 import _arg
 
 F = layer1.F
+ALL_SUMMARIES = dict(layer1.SUMMARIES)
+ALL_SUMMARIES.update(layer2.SUMMARIES)
 
 
 def lemma_task(qual, variants, mk_args, removed_arg=None):
@@ -25,7 +27,7 @@ def lemma_task(qual, variants, mk_args, removed_arg=None):
             g0, bb0 = st0.g(me), st0.bb(me)
             st0.pc.append(spec.wired(ctx, g0, bb0, pin))
             args, kwargs = mk_args(ex, vname)
-            outs = verify.run_summary(ex, layer1.SUMMARIES[qual], st0, me, args, kwargs)
+            outs = verify.run_summary(ex, ALL_SUMMARIES[qual], st0, me, args, kwargs)
             n_feasible = 0
             for i, o in enumerate(outs):
                 i = o.st.pathid()
@@ -37,6 +39,50 @@ def lemma_task(qual, variants, mk_args, removed_arg=None):
                 what = "raise(" + str(o.exc) + ")" if o.kind == "raise" else "return"
                 parts = [("graph-invariant", g1.wf(ctx)), ("typed", spec.typed(ctx, g1)), ("wiring", spec.wired_edges(ctx, g1)),
                          ("registry", spec.registry_ok(ctx, g1, bb1, pin, removed))]
+                for lab, f in parts:
+                    ctx.oblige(f"{label}/wired#{i}:{what}:{lab}", o.st.pc, f, "lemma")
+                if o.kind == "raise":
+                    ctx.oblige(f"{label}/rejected-call-adds-no-edge#{i}:{what}", o.st.pc, spec.same_edges(ctx, g1, g0), "lemma")
+                    ctx.oblige(f"{label}/rejected-call-class#{i}:{what}", o.st.pc, z3.BoolVal(o.exc in ("ValueError", "KeyError")), "lemma")
+            info["variants"].append(vname)
+        return info
+    return run
+
+
+def lemma_add_subcircuit(variants):
+    """wired(self) and wired(sc) before => wired(self) after add_subcircuit(sc, name, connections), on every outcome.
+    (sc is itself built by the construction API, so it is wired: the induction of C07 is over call sequences.)"""
+    qual = "Circuit.add_subcircuit"
+    def run(ctx):
+        from pyvc.engine import DictV
+        fn, seg, sha = engine.find_function(F, qual)
+        info = {"function": f"{F}::{qual}", "sha256": sha, "lines": [fn.lineno, fn.end_lineno], "variants": [], "kind": "lemma over the contract"}
+        for nconn, strip in variants:
+            vname = f"connections={nconn},strip_io={strip}"
+            label = f"C07:{qual}[{vname}]"
+            ex = Exec(ctx, summaries=dict(ALL_SUMMARIES), module_consts=engine.module_constants(F), fname=label)
+            st0 = State({}, {}, [])
+            me = verify.mk_circuit(ex, st0, "self", wf=False)
+            sc = verify.mk_circuit(ex, st0, "sc", wf=False)
+            pin = ctx.template(("", ".", ""))
+            g0, bb0 = st0.g(me), st0.bb(me)
+            st0.pc.append(spec.wired(ctx, g0, bb0, pin))
+            st0.pc.append(spec.wired(ctx, st0.g(sc), st0.bb(sc), pin))
+            name = NameV(ctx.fresh_name("name"))
+            conns = NONE
+            if nconn:
+                items = [(ctx.fresh_name(f"key{k}"), NameV(ctx.fresh_name(f"net{k}"))) for k in range(nconn)]
+                conns = DictV(lambda y, ks=[k for k, _ in items]: z3.Or([y == k for k in ks]), None, items=items)
+                for a in range(nconn):
+                    for b in range(a):
+                        st0.pc.append(items[a][0] != items[b][0])
+            outs = verify.run_summary(ex, ALL_SUMMARIES[qual], st0, me, [sc, name], {"connections": conns, "strip_io": strip})
+            for o in outs:
+                i = o.st.pathid()
+                g1, bb1 = o.st.g(me), o.st.bb(me)
+                what = "raise(" + str(o.exc) + ")" if o.kind == "raise" else "return"
+                parts = [("graph-invariant", g1.wf(ctx)), ("typed", spec.typed(ctx, g1)), ("wiring", spec.wired_edges(ctx, g1)),
+                         ("registry", spec.registry_ok(ctx, g1, bb1, pin, None))]
                 for lab, f in parts:
                     ctx.oblige(f"{label}/wired#{i}:{what}:{lab}", o.st.pc, f, "lemma")
                 if o.kind == "raise":
@@ -69,6 +115,11 @@ def _add(uid):
     return mk
 
 
+def _addbb(ex, v):
+    from pyvc.exec import BBVal
+    return [BBVal(ex.ctx.fresh("blackbox", ex.ctx.BB)), NameV(ex.ctx.fresh_name("name"))], {}
+
+
 PAIRS = ["str,str", "list,list", "str,list", "list,str", "set,str", "str,set"]
 ADDV = [f"{a},{b}" for a in ("none", "str", "list") for b in ("none", "str", "list")]
 TASKS = {
@@ -78,4 +129,7 @@ TASKS = {
     "C07/set_output": lemma_task("Circuit.set_output", ["str"], _setout),
     "C07/add[default]": lemma_task("Circuit.add", ADDV, _add(False)),
     "C07/add[uid]": lemma_task("Circuit.add", ADDV, _add(True)),
+    "C07/add_subcircuit[no connections]": lemma_add_subcircuit([(0, True), (0, False)]),
+    "C07/add_subcircuit[1 connection]": lemma_add_subcircuit([(1, True)]),
+    "C07/add_blackbox": lemma_task("Circuit.add_blackbox", ["no connections"], _addbb),
 }
